@@ -11,6 +11,7 @@
 #include <ctime>
 #include <new>
 #include <sys/mman.h>
+#include <sys/time.h>
 #include <sys/wait.h>
 #include <unistd.h>
 
@@ -170,6 +171,17 @@ inline void crash_line(char const* reason)
     (void)!write(1, buf, static_cast<size_t>(n));
 }
 
+// The hang watchdog counts the CPU time the process itself has consumed (ITIMER_PROF), not wall-clock time: a loop that
+// never ends burns CPU and is caught, a machine that is busy with something else is not mistaken for one.  (A wall-clock
+// alarm expired in six workers at once while three compilations were running next to a thorough run; none of the six
+// reproduced, the check exited 2.)
+inline void watchdog(int cpuSeconds)
+{
+    struct itimerval it{};
+    it.it_value.tv_sec = cpuSeconds;
+    setitimer(ITIMER_PROF, &it, nullptr);
+}
+
 inline void on_signal(int sig)
 {
     char const* r = "signal";
@@ -179,7 +191,7 @@ inline void on_signal(int sig)
     case SIGILL: r = "SIGILL"; break;
     case SIGABRT: r = "SIGABRT"; break;
     case SIGFPE: r = "SIGFPE"; break;
-    case SIGALRM: r = "timeout"; break;
+    case SIGPROF: r = "timeout"; break;
     default: break;
     }
     crash_line(r);
@@ -224,9 +236,9 @@ inline void install_crash_handlers()
     sigemptyset(&sa.sa_mask);
 #if SIM_ASAN
     __sanitizer_set_death_callback(on_sanitizer_death);
-    sigaction(SIGALRM, &sa, nullptr);
+    sigaction(SIGPROF, &sa, nullptr);
 #else
-    for (int s : {SIGSEGV, SIGBUS, SIGILL, SIGABRT, SIGFPE, SIGALRM}) {
+    for (int s : {SIGSEGV, SIGBUS, SIGILL, SIGABRT, SIGFPE, SIGPROF}) {
         sigaction(s, &sa, nullptr);
     }
 #endif
@@ -462,7 +474,7 @@ inline auto cmd_run(std::map<std::string, std::string> const& opt) -> int
             continue;
         }
         if ((runs & 255) == 0) {
-            alarm(20);
+            watchdog(20);
             if (elapsed() > maxSec) {
                 capped = true;
                 break;
@@ -519,7 +531,7 @@ inline auto cmd_run(std::map<std::string, std::string> const& opt) -> int
             }
         }
     }
-    alarm(0);
+    watchdog(0);
     if (dumpFile != nullptr) {
         std::fclose(dumpFile);
     }
@@ -587,9 +599,9 @@ inline auto cmd_replay(std::string const& path, bool quiet) -> int
     }
     Scenario const& sc = *find_scenario(plan.scenario);
     g_crash.idx        = -1;
-    alarm(20);
+    watchdog(20);
     auto r = eval_plan(plan, sc, plan.property, !quiet);
-    alarm(0);
+    watchdog(0);
     if (!quiet) {
         std::printf("%s", r.text.c_str());
         std::printf("LOGHASH %016llx\n", static_cast<unsigned long long>(r.hash));
@@ -636,7 +648,7 @@ inline auto class_in_child(Plan const& plan, Scenario const& sc, std::string con
         }
         g_counting  = false;
         g_crash.idx = -1;
-        alarm(10);
+        watchdog(4);
         auto r = eval_plan(plan, sc, prop, false);
         std::string cls;
         for (auto const& v : r.viols) {
